@@ -495,6 +495,7 @@ def make_pass(name: str):
         "outfix": lambda: P.OutputFixPass(),
         "defattr": lambda: P.AddDefaultAttributesPass(),
         "shape": lambda: P.ShapeInferencePass(),
+        "shape2": lambda: P.ShapeInferencePass(check_type=True, strict_mode=False, data_prop=False),
         "clear": lambda: P.ClearMetadataAndDocStringPass(),
         "rmfunc": lambda: P.RemoveUnusedFunctionsPass(),
         "rmopset": lambda: P.RemoveUnusedOpsetsPass(),
@@ -503,12 +504,12 @@ def make_pass(name: str):
 
 
 PASS_NAMES = ["dce", "ident", "cse", "cse100", "dedup", "dedup8", "deduph", "topo", "namefix", "lift", "lift0", "liftall",
-              "liftsub", "rminit", "addinit", "inline", "outfix", "defattr", "shape", "clear", "rmfunc", "rmopset"]
+              "liftsub", "rminit", "addinit", "inline", "outfix", "defattr", "shape", "clear", "rmfunc", "rmopset", "shape2"]
 # passes with an executable Gallina model (structural correspondence = model pass output vs implementation)
 MODELLED = {"dce", "ident", "cse", "cse100", "dedup", "dedup8", "deduph", "lift", "lift0", "liftall", "liftsub", "rminit",
             "addinit", "outfix", "rmfunc", "defattr", "inline"}
 # passes that may only touch what is outside the term language (names, metadata, shapes, opset imports): frame check
-FRAME = {"namefix", "shape", "clear", "rmopset"}
+FRAME = {"namefix", "shape", "shape2", "clear", "rmopset"}
 RELATIONAL = {"topo"}        # checked against the reorder relation (exact order: property C12)
 
 
@@ -1355,6 +1356,9 @@ def classify(spec, passes, failure):  # noqa: F811
     if step_pass == "inline" and kind == "checker-rejects-after" and "has been used as output names multiple times" in failure \
             and spec.get("functions") and _dup_name_is_cross_scope(spec, passes, failure):
         return "inline-name-collision-with-nested-scope"
+    if step_pass in ("cse", "cse100") and kind == "checker-rejects-after" and "has an empty string in the graph" in failure and any(
+            "" in n["outs"] for n in _walk_nodes(spec)):
+        return "cse-merges-node-with-omitted-output"
     if step_pass == "inline" and kind == "checker-rejects-after" and "has output size 0" in failure and any(
             "" in n["outs"] and n.get("dom") == "local" for n in _walk_nodes(spec)):
         return "inline-omitted-call-output"
@@ -1771,6 +1775,46 @@ def targeted_cases(rng, n: int):
                        "outputs": [[jn[-1]["outs"][0], "F2"]], "function_domains_not_imported": True, "domain_versions": {"ai.onnx.ml": 3}},
                       rng.choice([["inline"], ["inline", "rmopset"], ["inline", "rmfunc", "dce", "rmopset"], ["rmopset", "inline"], ["inline", "cse"]]),
                       rng.randrange(1 << 30)))
+        # (k) a subgraph that returns one of its OWN initializers directly (no node consumes it) / an initializer of a Loop body
+        kdat = [rng.choice([1.0, 3.0]), rng.choice([2.0, -2.0])]
+        kth = {"name": "kth", "inputs": [], "inits": [["kw", "F2", kdat, False]], "nodes": [], "outputs": [["kw", "F2"]]}
+        kel = {"name": "kel", "inputs": [], "inits": [["ku", "F2", [9.0, 9.0], False]], "nodes": [N("Neg", ["x0"], ["ke"])], "outputs": [["ke", "F2"]]}
+        if rng.random() < 0.5:
+            kth, kel = dict(kel, name="kth"), dict(kth, name="kel")
+        kbody = {"name": "kbody", "inputs": [["kit", "I"], ["kcin", "B"], ["kcar", "F2"]], "inits": [["kb", "F2", [0.5, 0.5], False]],
+                 "nodes": [N("Identity", ["kcin"], ["kcout"])], "outputs": [["kcout", "B"], ["kb", "F2"]]}
+        kn = [N("If", ["c0"], ["y"], then_branch=["g", kth], else_branch=["g", kel])]
+        kouts = [["y", "F2"]]
+        if rng.random() < 0.5:
+            kn += [N("Constant", [], ["ktrip"], value=["t", ["I", [2]]]), N("Loop", ["ktrip", "", "y"], ["yl"], body=["g", kbody])]
+            kouts.append(["yl", "F2"])
+        cases.append(({"opset": 18, "inputs": [["x0", "F2"], ["c0", "B"]], "inits": [], "functions": [], "nodes": kn, "outputs": kouts},
+                      rng.choice([["dce"], ["dce", "dce"], ["dce", "liftsub"], ["ident", "dce"], ["dce", "dedup"]]), rng.randrange(1 << 30)))
+        # (l) Constants whose tensors have the SAME bytes and shape but different element types (float32 0.5 = int32 1056964608)
+        lpair = rng.choice([([0.5, 0.0], [1056964608, 0]), ([0.0, 0.0], [0, 0]), ([1.0, 2.0], [1065353216, 1073741824])])
+        ln = [N("Constant", [], ["lc1"], value=["t", ["F2", lpair[0]]]), N("Constant", [], ["lc2"], value=["t", ["J2", lpair[1]]]),
+              N("Cast", ["lc2"], ["lc2f"], to=["i", 1]), N("Add", ["x0", "lc1"], ["l0"]), N("Add", ["l0", "lc2f"], ["ly"])]
+        if rng.random() < 0.5:
+            ln[0], ln[1] = ln[1], ln[0]
+        cases.append(({"opset": 18, "inputs": [["x0", "F2"]], "inits": [], "functions": [], "nodes": ln, "outputs": [["ly", "F2"], ["lc2", "J2"]][:rng.choice([1, 2])]},
+                      rng.choice([["cse"], ["cse100"], ["cse", "dce"], ["cse", "liftall"]]), rng.randrange(1 << 30)))
+        # (m) sibling If branches that reuse a value NAME for intermediates of different element types; shape inference variants
+        mth = {"name": "mth", "inputs": [], "inits": [], "nodes": [N("Neg", ["x0"], ["mt"]), N("Abs", ["mt"], ["mo1"])], "outputs": [["mo1", "F2"]]}
+        mel = {"name": "mel", "inputs": [], "inits": [], "nodes": [N("Cast", ["x0"], ["mt"], to=["i", rng.choice([7, 6])]), N("Cast", ["mt"], ["mo2"], to=["i", 1])],
+               "outputs": [["mo2", "F2"]]}
+        if rng.random() < 0.5:
+            mth, mel = dict(mel, name="mth"), dict(mth, name="mel")
+        cases.append(({"opset": 18, "inputs": [["x0", "F2"], ["c0", "B"]], "inits": [], "functions": [],
+                       "nodes": [N("If", ["c0"], ["y"], then_branch=["g", mth], else_branch=["g", mel])], "outputs": [["y", "F2"]]},
+                      rng.choice([["shape"], ["shape2"], ["shape2", "dce"], ["shape", "cse"], ["shape2", "shape"]]), rng.randrange(1 << 30)))
+        # (n) a node with an OMITTED optional output next to the same node with that output used (known finding:
+        #     cse-merges-node-with-omitted-output when the full node comes second)
+        pools = [N("MaxPool", ["x3"], ["p1", ""], kernel_shape=["is", [1]]), N("MaxPool", ["x3"], ["p2", "pidx"], kernel_shape=["is", [1]])]
+        if rng.random() < 0.5:
+            pools.reverse()
+        cases.append(({"opset": 18, "inputs": [["x3", "F112"]], "inits": [], "functions": [],
+                       "nodes": pools + [N("Add", ["p1", "p2"], ["py"]), N("Neg", ["pidx"], ["pni"])], "outputs": [["py", "F112"], ["pni", "I112"]]},
+                      rng.choice([["cse"], ["cse", "dce"], ["cse100"]]), rng.randrange(1 << 30)))
     return cases
 
 
